@@ -98,9 +98,21 @@ ORGANICS = [
 ]
 
 
+# charged, delocalised species: their resonance forms differ in which bonds are double (used by C12 only)
+IONS = [
+    "C/C=C/C(N)=[NH2+]", "C=C[CH2+]", "C/C=C/[CH2+]", "C/C=C\\[CH2+]", "CC(=O)[O-]", "C[N+](=O)[O-]", "NC(N)=[NH2+]", "C/C=C/C(=O)[O-]",
+    "C/C(=C\\C)[O-]", "C/C=C/C=[OH+]", "[CH2-]/C=C/C", "C[C@H](F)C(N)=[NH2+]", "F/C=C/C(C)=[N+](C)C", "[O-]c1ccccc1", "C[n+]1ccccc1",
+]
+
+
 @lru_cache(None)
 def organics():
     return list(ORGANICS)
+
+
+@lru_cache(None)
+def ions():
+    return list(IONS)
 
 
 def stereoisomers(smi):
